@@ -6,6 +6,7 @@ use crate::uni::Uni;
 pub mod c01;
 pub mod c02;
 pub mod c03;
+pub mod c04;
 pub mod c09;
 
 pub fn run(id: &str, tier: Tier, seed: u64) -> Option<i32> {
@@ -13,6 +14,7 @@ pub fn run(id: &str, tier: Tier, seed: u64) -> Option<i32> {
         "C01" => c01::run(tier, seed),
         "C02" => c02::run(tier, seed),
         "C03" => c03::run(tier, seed),
+        "C04" => c04::run(tier, seed),
         "C09" => c09::run(tier, seed),
         _ => return None,
     })
